@@ -309,8 +309,8 @@ def check_types(run, hook, ts, prims, label):
             run.count("not_encodable")
             continue
         cases.append((t, r, e))
-    for sh in range(0, len(cases), 1500):
-        part = cases[sh:sh + 1500]
+    for sh in range(0, len(cases), 2000):
+        part = cases[sh:sh + 2000]
         sums = coq_sums("c18_%s_%d" % (label, sh), [c[2] for c in part])
         for (t, r, e), (s4, s8) in zip(part, sums):
             for ps, sm in ((4, s4), (8, s8)):
@@ -401,7 +401,7 @@ def layout_stage(run, hook, prims):
     quick = run.tier == "quick"
     ts = systematic_types()
     nsys = len(ts)
-    nrand = 700 if quick else 30000
+    nrand = 500 if quick else 30000
     maxd = 4 if quick else 5
     for i in range(nrand):
         d = rng.choice([1, 2, 2, 3, 3, maxd, maxd])
@@ -588,15 +588,18 @@ class Scenario:
         st = {"v": dict(self.init["v"]), "w": dict(self.init["w"])}
         def dump_exp(s1):
             return [s1[p] for p, _, _ in self.leaves] + [sent]
-        first = [True]
+        def dump(var, s1):
+            # every component + the sentinels; the composite is passed by value to d<k> when that works (smaller programs:
+            # the front end needs ~10 ms per source line), otherwise the reads are inline
+            if byval: L.append("    d%d(%s, g1, g2, g3);" % (k, var))
+            else: L.extend(self.dump_code(var))
+            exp.extend(dump_exp(s1))
         def both():
-            # the first dump is inline (so every component, the first field included, is accessed inside this function
-            # before any whole-composite assignment); later dumps pass the composite by value to d<k> when that works
+            dump("v", st["v"]); dump("w", st["w"])
+        if self.leaves:
+            # the first component of both variables is accessed inside this function before any whole-composite assignment
             for var in ("v", "w"):
-                if byval and not first[0]: L.append("    d%d(%s, g1, g2, g3);" % (k, var))
-                else: L.extend(self.dump_code(var))
-                exp.extend(dump_exp(st[var]))
-            first[0] = False
+                L.extend(self.read_code(var, self.leaves[0])); exp.append(st[var][self.leaves[0][0]])
         def setv(s1, leaf, val):
             s1[leaf[0]] = str(NONE_MARK) if val == "none" else shown(leaf[2], val)
         both()
@@ -637,7 +640,9 @@ class Scenario:
                 _, dst, n = op
                 cur = int(st[dst]["v.F0"]); hi = RANGES[self.leaves[0][2]][1]
                 if cur > hi - 10: continue
-                L += ["    while %s.F0 < %d {" % (dst, cur + n), "        %s = inc%d(%s);" % (dst, k, dst), "    }"]
+                nloop += 1       # the step bound keeps a corrupted counter from spinning forever
+                L += ["    let n%d: i32 = 0;" % nloop, "    while %s.F0 < %d && n%d < 8 {" % (dst, cur + n, nloop),
+                      "        %s = inc%d(%s);" % (dst, k, dst), "        n%d = n%d + 1;" % (nloop, nloop), "    }"]
                 st[dst]["v.F0"] = str(cur + n)
             both()
         L.append("    let c := v;")
@@ -645,8 +650,7 @@ class Scenario:
         for path, kind, pn, val in self.copy_writes:
             L.append("    %s = %s;" % (self.at("c", path), val))
             cstate[path] = shown(pn, val)
-        L += self.dump_code("v"); exp += dump_exp(st["v"])
-        L += self.dump_code("c"); exp += dump_exp(cstate)
+        dump("v", st["v"]); dump("w", st["w"]); dump("c", cstate)
         pre = []
         if self.funcs:
             pre += ["fn id%d(x: %s) -> %s {" % (k, self.tname, self.tname), "    return x;", "}"]
@@ -658,9 +662,6 @@ class Scenario:
                 pre += ["fn inc%d(x: %s) -> %s {" % (k, self.tname, self.tname), "    x.F0 = x.F0 + 1;", "    return x;", "}"]
         if byval:
             pre += ["fn d%d(v: %s, g1: i64, g2: i64, g3: i64) {" % (k, self.tname)] + self.dump_code("v") + ["}"]
-            L.append("    d%d(v, g1, g2, g3);" % k); exp += dump_exp(st["v"])
-            L.append("    d%d(w, g1, g2, g3);" % k); exp += dump_exp(st["w"])
-            L.append("    d%d(c, g1, g2, g3);" % k); exp += dump_exp(cstate)
         L.append("}")
         return self.decls, pre + L, exp
     def op_text(self, op):
@@ -750,7 +751,7 @@ fn main() {
 ARRAYSET_KEY = "arrayset-nested-temp"
 
 def run_prog(work, name, src, target):
-    r = common.compile_and_run(src, work, name, target=target, timeout=60)
+    r = common.compile_and_run(src, work, name, target=target, timeout=25)
     if not r["accepted"] or "out" not in r:
         return None, (r.get("cout", "") + r.get("cerr", ""))[-1500:]
     return r, None
@@ -786,21 +787,22 @@ def programs_stage(run, work):
     arrayset = bool(r2 and r2.get("rc") == 0 and r2["out"].strip() == "10 299 12")
     feat = {"byval": byval, "arrayset": arrayset}
     nprog = 2 if quick else 40
-    per = 7 if quick else 10
+    per = 6 if quick else 10
     fails = []
     for pi in range(nprog):
         wasm = (pi % 2 == 1)
         scens = []
         for k in range(per):
-            if not wasm and k % 7 == 6:
+            if not wasm and k % 6 == 5:
                 scens.append(ResScenario(rng, k)); continue
-            t = gen_ptype(rng, rng.choice([0, 1, 1, 2]), wasm)
+            if wasm and k >= 4: break           # small wasm programs: the JS runtime never frees or grows memory
+            t = gen_ptype(rng, rng.choice([0, 1, 1]) if wasm else rng.choice([0, 1, 1, 2]), wasm)
             r = rng.random()
             if r < 0.35: t = ("s", [("p", rng.choice(["i32", "i64"]))] + t[1][1:])       # scalar first field usable as a loop counter
             elif r < 0.45: t = ("s", [("p", "str")] + t[1][1:])
             elif r < 0.55 and not wasm: t = ("s", [("o", ("p", rng.choice(["i8", "i32", "i64", "u16"])))] + t[1][1:])
             if rng.random() < 0.2: t = ("a", rng.choice([1, 2, 3]), t)                    # the variable is a fixed array of structs
-            scens.append(Scenario(rng, k, t, rng.choice([4, 6, 9]), feat))
+            scens.append(Scenario(rng, k, t, rng.choice([3, 4, 6]) if wasm else rng.choice([4, 6, 9]), feat))
         fails += run_scenarios(run, work, "p%d" % pi, scens, "wasm" if wasm else "native", byval, depth=0)
     for f in fails[:3]:
         shrink_ops(work, f, byval)
@@ -823,7 +825,7 @@ def shrink_ops(work, f, byval):
         df = first_diff(exps[0], got)
         if r.get("rc") != 0 and df is None: df = (0, "exit 0", "exit %s" % r.get("rc"))
         return (src, exps[0], df) if df is not None else None
-    budget = 24
+    budget = 12
     i = len(ops) - 1
     best = None
     while i >= 0 and budget > 0:
@@ -853,6 +855,13 @@ def run_scenarios(run, work, name, scens, target, byval, depth):
             run.count("programs_rejected_" + target)
             run.extra.setdefault("rejected_samples", [])
             if len(run.extra["rejected_samples"]) < 3: run.extra["rejected_samples"].append({"type": tstr(sc.t if hasattr(sc, "t") and isinstance(sc.t, tuple) else sc.t0), "error": err[-300:]})
+            return []
+        got1 = split_out(r.get("out", "")).get(sc.k, [])
+        if target == "wasm" and "outside the bounds of the DataView" in r.get("err", "") and got1 == exps[0][:len(got1)] and len(got1) > 50:
+            # runtime/wasm/runtime.js: ferret_alloc is a bump allocator over a memory that is never grown or freed (every
+            # alloca and every Println allocates); a long program runs out of memory. Everything printed so far was right:
+            # resource exhaustion of the JS runtime, not a layout violation (kept rare by small wasm programs).
+            run.count("wasm_memory_exhausted")
             return []
         return [dict(kind="crash", sc=sc, target=target, src=src, detail="exit status %s, stderr %s" % (r.get("rc"), r.get("err", "")[-300:]))]
     got = split_out(r["out"])
@@ -895,6 +904,7 @@ def main(run):
     # ---- union size model (open finding F-UNION-SIZE): reproduced on every run by its own probe
     uf = [f for f in check_types(run, hook, [UNION_PROBE], prims, "union") if f["kind"] == "oracle"]
     run.extra.setdefault("gates", []).append("array elements of optional type and struct-payload results are not generated at program level (the compiler rejects them)")
+    run.extra["gates"] += ["wasm programs are kept small: runtime/wasm/runtime.js never grows or frees memory, a long program dies with `Offset is outside the bounds of the DataView` (counted as wasm_memory_exhausted when everything printed before was right)"]
     run.extra["gates"] += ["union types are kept out of the random type generator while F-UNION-SIZE is open (probe: %s)" % tstr(UNION_PROBE)]
     for f in uf[:1]:
         report_layout_failure(run, f)
